@@ -45,6 +45,8 @@ type FieldSpec struct {
 	Whole  bool     `json:"whole,omitempty"` // "." the whole source
 	Fn     string   `json:"fn,omitempty"`    // map ... | FUNC
 	FnNoSource bool `json:"fn_no_source,omitempty"`
+	// Getter: Fn is an argument-less method of the source struct: its result is the source value of the field
+	Getter bool `json:"getter,omitempty"`
 	// AnyOf: the statement leaves a choice; every listed alternative is accepted
 	Free bool `json:"free,omitempty"`
 }
